@@ -417,3 +417,110 @@ theorem toList_del (h : TotalOrder cmp) (k : Nat) (t : Tree) (hb : BST cmp t) :
         exact (erase_eq h hs).symm
 end Tree
 end CC
+
+/-! ### order is preserved; sizes; successor and predecessor -/
+namespace CC.Spec.OrdMap
+open CC CC.Spec
+variable {cmp : Nat → Nat → Int}
+
+theorem sorted_below {l : OrdMap} (hs : Sorted cmp l) (k : Nat) : Sorted cmp (below cmp l k) :=
+  List.Pairwise.filter _ hs
+theorem sorted_above {l : OrdMap} (hs : Sorted cmp l) (k : Nat) : Sorted cmp (above cmp l k) :=
+  List.Pairwise.filter _ hs
+theorem sorted_erase {l : OrdMap} (hs : Sorted cmp l) (k : Nat) : Sorted cmp (erase l k) :=
+  List.Pairwise.filter _ hs
+theorem sorted_tail {l : OrdMap} (hs : Sorted cmp l) : Sorted cmp l.tail :=
+  List.Pairwise.sublist (List.tail_sublist l) hs
+theorem sorted_dropLast {l : OrdMap} (hs : Sorted cmp l) : Sorted cmp l.dropLast :=
+  List.Pairwise.sublist (List.dropLast_sublist l) hs
+
+theorem sorted_insert (h : TotalOrder cmp) {l : OrdMap} (hs : Sorted cmp l) (k v : Nat) :
+    Sorted cmp (insert cmp l k v) := by
+  refine sorted_append_cons.2 ⟨sorted_below hs k, sorted_above hs k, ?_, ?_, ?_⟩
+  · intro a ha; simpa [below] using (List.mem_filter.1 ha).2
+  · intro b hb; simpa [above] using (List.mem_filter.1 hb).2
+  · intro a ha b hb
+    have h1 : cmp a.1 k < 0 := by simpa [below] using (List.mem_filter.1 ha).2
+    have h2 : cmp k b.1 < 0 := by simpa [above] using (List.mem_filter.1 hb).2
+    exact h.trans _ _ _ h1 h2
+
+/-- keys of a sorted map are pairwise different: erasing a present key removes one entry -/
+theorem contains_cons (e : Nat × Nat) (l : OrdMap) (k : Nat) :
+    contains (e :: l) k = (e.1 == k || contains l k) := rfl
+theorem erase_cons (e : Nat × Nat) (l : OrdMap) (k : Nat) :
+    erase (e :: l) k = if e.1 = k then erase l k else e :: erase l k := by
+  by_cases h : e.1 = k <;> simp [erase, h]
+
+theorem length_erase (h : TotalOrder cmp) {l : OrdMap} (hs : Sorted cmp l) (k : Nat) :
+    (erase l k).length + (if contains l k then 1 else 0) = l.length := by
+  induction l with
+  | nil => rfl
+  | cons e rest ih =>
+    obtain ⟨hr, hlt⟩ := sorted_cons.1 hs
+    by_cases hk : e.1 = k
+    · subst hk
+      have hne : ∀ x ∈ rest, x.1 ≠ e.1 := ne_of_side h (Or.inr hlt)
+      rw [erase_cons, if_pos rfl, erase_self_of_ne hne, contains_cons]
+      simp
+    · have hb : (e.1 == k) = false := by simpa using hk
+      have := ih hr
+      rw [erase_cons, if_neg hk, contains_cons, hb, Bool.false_or, List.length_cons, List.length_cons]
+      omega
+
+theorem length_insert (h : TotalOrder cmp) {l : OrdMap} (hs : Sorted cmp l) (k v : Nat) :
+    (insert cmp l k v).length = l.length + (if contains l k then 0 else 1) := by
+  induction l with
+  | nil => simp [insert, below, above, contains]
+  | cons e rest ih =>
+    obtain ⟨hr, hlt⟩ := sorted_cons.1 hs
+    have hs' : Sorted cmp ([] ++ (e.1, e.2) :: rest) := hs
+    have ee : e :: rest = [] ++ (e.1, e.2) :: rest := rfl
+    by_cases h1 : cmp k e.1 < 0
+    · have hc : contains (e :: rest) k = false :=
+        contains_false_of_ne (ne_of_side h (Or.inr (right_above_of_lt h hs' h1)))
+      rw [hc, ee, insert_lt h hs' h1 v]
+      simp [insert, below, above]
+    · by_cases h2 : cmp e.1 k < 0
+      · have hb : (e.1 == k) = false := by simpa using h.ne_of_lt h2
+        rw [contains_cons, hb, Bool.false_or, ee, insert_gt h hs' h2 v]
+        simp only [List.nil_append, List.length_cons, ih hr]
+        omega
+      · have hk : k = e.1 := h.eq_of_not h1 (by rw [h.gt_iff]; exact h2)
+        subst hk
+        rw [contains_cons, ee, insert_eq h hs' v]
+        simp
+
+end CC.Spec.OrdMap
+
+namespace CC.Tree
+open CC.Spec CC.Spec.OrdMap
+variable {cmp : Nat → Nat → Int}
+
+/-- the in-order successor of a present key is the least entry above it -/
+theorem nextAfter_eq_succ (h : TotalOrder cmp) {l : OrdMap} (hs : Sorted cmp l) {k : Nat}
+    (hk : contains l k = true) : nextAfter l k = succ cmp l k := by
+  induction l with
+  | nil => simp [contains] at hk
+  | cons e rest ih =>
+    obtain ⟨hr, hlt⟩ := sorted_cons.1 hs
+    by_cases he : e.1 = k
+    · subst he
+      have := above_all h hlt
+      simp [nextAfter, succ, above_cons, h.irrefl, this.2]
+    · have hk' : contains rest k = true := by simpa [contains, he] using hk
+      have hmem : ∃ x ∈ rest, x.1 = k := by simpa [contains] using hk'
+      obtain ⟨x, hx, hxk⟩ := hmem
+      have : cmp e.1 k < 0 := hxk ▸ hlt x hx
+      simp [nextAfter, he, succ, above_cons, h.asymm this, ih hr hk']
+
+theorem sorted_reverse {l : OrdMap} (hs : Sorted cmp l) : Sorted (fun a b => cmp b a) l.reverse := by
+  simpa [Sorted, List.pairwise_reverse] using hs
+
+/-- the in-order predecessor of a present key is the greatest entry below it -/
+theorem prevBefore_eq_pred (h : TotalOrder cmp) {l : OrdMap} (hs : Sorted cmp l) {k : Nat}
+    (hk : contains l k = true) : prevBefore l k = pred cmp l k := by
+  have hk' : contains l.reverse k = true := by simpa [contains] using hk
+  rw [prevBefore, nextAfter_eq_succ h.flip (sorted_reverse hs) hk']
+  simp [succ, pred, above, below, List.filter_reverse]
+
+end CC.Tree
